@@ -1,4 +1,307 @@
+//! Drivers for the free-function sub-machines: AES hazmat rounds (C17), eksblowfish (C14),
+//! BelT wide-block and raw block (C18, C07).
+
 use super::*;
-pub fn hazmat(_cx: &mut Ctx, _args: &Args, _rng: &mut Rng) -> i32 { 2 }
-pub fn bcrypt(_cx: &mut Ctx, _args: &Args, _rng: &mut Rng) -> i32 { 2 }
-pub fn wblock(_cx: &mut Ctx, _args: &Args, _rng: &mut Rng) -> i32 { 2 }
+use crate::rng::mix;
+
+// ------------------------------------------------------------------------------------------ hazmat
+#[cfg(feature = "hazmat")]
+pub fn hazmat(cx: &mut Ctx, args: &Args, rng: &mut Rng) -> i32 {
+    use aes::hazmat::*;
+    use cipher::Array;
+    let n = args.num("n", 20) as usize;
+    cx.reset("hazmat");
+    let force_off = args.get("force-off") == Some("1");
+    set_force_off(force_off);
+    let blocks = mix(rng, 16, n);
+    let keys = mix(rng, 16, n);
+    for (i, (_, b)) in blocks.iter().enumerate() {
+        let (_, k) = &keys[(i * 7 + 3) % keys.len()];
+        for f in ["round", "inv_round", "mix", "inv_mix"] {
+            let r = catch(|| {
+                let mut blk = Array::<u8, cipher::consts::U16>::clone_from_slice(b);
+                let key = Array::<u8, cipher::consts::U16>::clone_from_slice(k);
+                match f {
+                    "round" => cipher_round(&mut blk, &key),
+                    "inv_round" => equiv_inv_cipher_round(&mut blk, &key),
+                    "mix" => mix_columns(&mut blk),
+                    _ => inv_mix_columns(&mut blk),
+                }
+                blk.to_vec()
+            });
+            let v = match r {
+                Ok(o) => json!({"ev":"haz","fn":f,"blocks":[b],"keys":[k],"out":[o],"outcome":"ok"}),
+                Err(m) => json!({"ev":"haz","fn":f,"blocks":[b],"keys":[k],"out":[],"outcome":"panic","msg":m}),
+            };
+            cx.emit(v);
+        }
+    }
+    // parallel forms: 8 independent blocks and 8 independent keys
+    let npar = (n / 2).max(2);
+    for t in 0..npar {
+        let bl: Vec<Vec<u8>> = if t == 0 {
+            // all distinct in every byte position
+            (0..8).map(|j| (0..16).map(|i| (j * 16 + i + 1) as u8).collect()).collect()
+        } else {
+            (0..8).map(|_| if rng.below(4) == 0 { mix(rng, 16, 1)[0].1.clone() } else { rng.bytes(16) }).collect()
+        };
+        let kl: Vec<Vec<u8>> = if t == 0 {
+            (0..8).map(|j| (0..16).map(|i| (255 - (j * 16 + i)) as u8).collect()).collect()
+        } else {
+            (0..8).map(|_| rng.bytes(16)).collect()
+        };
+        for f in ["round_par", "inv_round_par"] {
+            let r = catch(|| {
+                let mut b8 = Block8::default();
+                let mut k8 = Block8::default();
+                for j in 0..8 {
+                    b8[j].copy_from_slice(&bl[j]);
+                    k8[j].copy_from_slice(&kl[j]);
+                }
+                if f == "round_par" {
+                    cipher_round_par(&mut b8, &k8)
+                } else {
+                    equiv_inv_cipher_round_par(&mut b8, &k8)
+                }
+                b8.iter().map(|b| b.to_vec()).collect::<Vec<_>>()
+            });
+            let v = match r {
+                Ok(o) => json!({"ev":"haz","fn":f,"blocks":bl,"keys":kl,"out":o,"outcome":"ok"}),
+                Err(m) => json!({"ev":"haz","fn":f,"blocks":bl,"keys":kl,"out":[],"outcome":"panic","msg":m}),
+            };
+            cx.emit(v);
+        }
+    }
+    set_force_off(false);
+    cx.end();
+    0
+}
+#[cfg(not(feature = "hazmat"))]
+pub fn hazmat(_cx: &mut Ctx, _args: &Args, _rng: &mut Rng) -> i32 {
+    eprintln!("built without the hazmat feature");
+    2
+}
+
+/// the detection hook (only in `--cfg block_ciphers_verif` builds)
+#[cfg(block_ciphers_verif)]
+pub fn set_force_off(off: bool) {
+    aes::verif::force_intrinsics_off(off);
+}
+#[cfg(not(block_ciphers_verif))]
+pub fn set_force_off(_off: bool) {}
+pub fn hook_present() -> bool {
+    cfg!(block_ciphers_verif)
+}
+
+// ------------------------------------------------------------------------------------------ bcrypt
+#[cfg(feature = "bcrypt")]
+pub fn bcrypt(cx: &mut Ctx, args: &Args, rng: &mut Rng) -> i32 {
+    use blowfish::Blowfish;
+    let nscen = args.num("n", 4) as usize;
+    let steps = args.num("steps", 4) as usize;
+    let cost = args.num("cost", 0) as u32;
+    let scen_file = args.get("scenarios");
+    // a scenario is a list of steps; each step: ("expand", keyidx) | ("salted", saltidx, keyidx) | ("encrypt")
+    let mut scenarios: Vec<Vec<(String, usize, usize)>> = Vec::new();
+    if let Some(p) = scen_file {
+        let txt = std::fs::read_to_string(p).expect("scenario file");
+        for line in txt.lines().filter(|l| !l.trim().is_empty()) {
+            let v: Value = serde_json::from_str(line).expect("scenario json");
+            let mut s = Vec::new();
+            for st in v.as_array().unwrap() {
+                let a = st.as_array().unwrap();
+                s.push((
+                    a[0].as_str().unwrap().to_string(),
+                    a.get(1).and_then(|x| x.as_u64()).unwrap_or(0) as usize,
+                    a.get(2).and_then(|x| x.as_u64()).unwrap_or(0) as usize,
+                ));
+            }
+            scenarios.push(s);
+        }
+    } else {
+        for _ in 0..nscen {
+            let mut s = Vec::new();
+            for _ in 0..steps {
+                match rng.below(5) {
+                    0 | 1 => s.push(("expand".to_string(), rng.below(2), 0)),
+                    2 | 3 => s.push(("salted".to_string(), rng.below(2), rng.below(2))),
+                    _ => s.push(("encrypt".to_string(), 0, 0)),
+                }
+            }
+            scenarios.push(s);
+        }
+    }
+    let be = |lr: [u32; 2]| -> Vec<u8> { [lr[0].to_be_bytes(), lr[1].to_be_bytes()].concat() };
+    for scen in scenarios {
+        cx.reset("bcrypt");
+        // concretise: two keys and two salts of assorted lengths (1..72, incl. non multiples of 4)
+        let lens = [1usize, 3, 4, 5, 7, 8, 16, 17, 31, 55, 56, 57, 71, 72];
+        let keys: Vec<Vec<u8>> = (0..2).map(|_| { let l = lens[rng.below(lens.len())]; if rng.below(5) == 0 { vec![0u8; l] } else { rng.bytes(l) } }).collect();
+        let salts: Vec<Vec<u8>> = (0..2).map(|i| { let l = if i == 0 { 16 } else { lens[rng.below(lens.len())] }; rng.bytes(l) }).collect();
+        let id = cx.fresh_id();
+        let mut st = match catch(Blowfish::bc_init_state) {
+            Ok(s) => { cx.emit(json!({"ev":"bc","fn":"init","id":id,"outcome":"ok"})); s }
+            Err(_) => { cx.emit(json!({"ev":"bc","fn":"init","id":id,"outcome":"panic"})); continue }
+        };
+        let probe = |cx: &mut Ctx, st: &Blowfish, rng: &mut Rng| {
+            let fixed: [[u32; 2]; 2] = [[0, 0], [0xFFFF_FFFF, 0x0123_4567]];
+            for j in 0..3 {
+                let lr = if j < 2 { fixed[j] } else { [rng.next() as u32, rng.next() as u32] };
+                let r = catch(|| st.bc_encrypt(lr));
+                let v = match r {
+                    Ok(o) => json!({"ev":"bc","fn":"encrypt","id":id,"in":be(lr),"out":be(o),"outcome":"ok"}),
+                    Err(_) => json!({"ev":"bc","fn":"encrypt","id":id,"in":be(lr),"out":[],"outcome":"panic"}),
+                };
+                cx.emit(v);
+            }
+        };
+        for (op, a, b) in &scen {
+            match op.as_str() {
+                "expand" => {
+                    let k = keys[*a % 2].clone();
+                    let r = catch(std::panic::AssertUnwindSafe(|| st.bc_expand_key(&k)));
+                    cx.emit(json!({"ev":"bc","fn":"expand","id":id,"key":k,"salt":[],"outcome": if r.is_ok() {"ok"} else {"panic"}}));
+                    probe(cx, &st, rng);
+                }
+                "salted" => {
+                    let s = salts[*a % 2].clone();
+                    let k = keys[*b % 2].clone();
+                    let r = catch(std::panic::AssertUnwindSafe(|| st.salted_expand_key(&s, &k)));
+                    cx.emit(json!({"ev":"bc","fn":"salted","id":id,"key":k,"salt":s,"outcome": if r.is_ok() {"ok"} else {"panic"}}));
+                    probe(cx, &st, rng);
+                }
+                _ => probe(cx, &st, rng),
+            }
+        }
+        // the bcrypt cost loop: salted(salt,key); 2^cost x { expand(key); expand(salt) }
+        if cost > 0 {
+            let k = keys[0].clone();
+            let s = salts[0].clone();
+            st.salted_expand_key(&s, &k);
+            cx.emit(json!({"ev":"bc","fn":"salted","id":id,"key":k,"salt":s,"outcome":"ok"}));
+            for _ in 0..(1u32 << cost) {
+                st.bc_expand_key(&k);
+                cx.emit(json!({"ev":"bc","fn":"expand","id":id,"key":k,"salt":[],"outcome":"ok"}));
+                st.bc_expand_key(&s);
+                cx.emit(json!({"ev":"bc","fn":"expand","id":id,"key":s,"salt":[],"outcome":"ok"}));
+            }
+            probe(cx, &st, rng);
+        }
+        // the state is an ordinary Blowfish<BE>: the block-cipher API must see the same permutation
+        let w = W(st);
+        for _ in 0..2 {
+            let b = rng.bytes(8);
+            if let Some(c) = cx.one(id, &w, Dir::Enc, Shape::B2b, &b) {
+                cx.one(id, &w, Dir::Dec, Shape::Inplace, &c);
+            }
+        }
+        cx.emit(json!({"ev":"drop","id":id,"out":"ok"}));
+        cx.end();
+    }
+    // plain expansion == ordinary keying: init; expand(k) next to Blowfish::new_from_slice(k)
+    if scen_file.is_none() {
+        for _ in 0..nscen.min(3) {
+            cx.reset("bcrypt-vs-keying");
+            let l = 4 + rng.below(53);
+            let k = rng.bytes(l);
+            let id = cx.fresh_id();
+            let mut st = Blowfish::bc_init_state();
+            cx.emit(json!({"ev":"bc","fn":"init","id":id,"outcome":"ok"}));
+            st.bc_expand_key(&k);
+            cx.emit(json!({"ev":"bc","fn":"expand","id":id,"key":k,"salt":[],"outcome":"ok"}));
+            let ti = cx.ty("Blowfish").unwrap();
+            if let Some((nid, inst)) = cx.construct(ti, "slice", &k, "random") {
+                let w = W(st);
+                for _ in 0..3 {
+                    let b = rng.bytes(8);
+                    cx.one(id, &w, Dir::Enc, Shape::B2b, &b);
+                    cx.one(nid, inst.as_ref(), Dir::Enc, Shape::B2b, &b);
+                }
+                cx.drop_inst(nid, inst);
+            }
+            cx.emit(json!({"ev":"drop","id":id,"out":"ok"}));
+            cx.end();
+        }
+    }
+    0
+}
+#[cfg(not(feature = "bcrypt"))]
+pub fn bcrypt(_cx: &mut Ctx, _args: &Args, _rng: &mut Rng) -> i32 {
+    eprintln!("built without the bcrypt feature");
+    2
+}
+
+// ------------------------------------------------------------------------------------------ wblock
+fn key_words(k: &[u8]) -> [u32; 8] {
+    let mut w = [0u32; 8];
+    for (i, c) in k.chunks_exact(4).enumerate() {
+        w[i] = u32::from_le_bytes(c.try_into().unwrap());
+    }
+    w
+}
+
+pub fn wblock(cx: &mut Ctx, args: &Args, rng: &mut Rng) -> i32 {
+    use belt_block::{belt_block_raw, belt_wblock_dec, belt_wblock_enc};
+    let maxlen = args.num("maxlen", 100) as usize;
+    let extra = args.num("extra", 4) as usize;
+    let nkeys = args.num("keys", 2) as usize;
+    let lo = args.num("minlen", 0) as usize;
+    let mut do_len = |cx: &mut Ctx, rng: &mut Rng, key: &[u8], len: usize, data: Vec<u8>| {
+        let kw = key_words(key);
+        for dir in ["enc", "dec"] {
+            let mut buf = Guarded::new(rng.below(8), &data);
+            let r = catch(std::panic::AssertUnwindSafe(|| {
+                if dir == "enc" { belt_wblock_enc(buf.payload_mut(), &kw) } else { belt_wblock_dec(buf.payload_mut(), &kw) }
+            }));
+            let outcome = match &r { Ok(Ok(())) => "ok", Ok(Err(_)) => "invalid_length", Err(_) => "panic" };
+            let out = buf.payload().to_vec();
+            cx.emit(json!({"ev":"wblock","dir":dir,"key":key,"len":len,"in":data,"out":out,"guard_bad":buf.guard_bad(),"outcome":outcome}));
+            // the other direction applied to the result (both compositions)
+            if outcome == "ok" {
+                let mut b2 = out.clone();
+                let r2 = catch(std::panic::AssertUnwindSafe(|| {
+                    if dir == "enc" { belt_wblock_dec(&mut b2, &kw) } else { belt_wblock_enc(&mut b2, &kw) }
+                }));
+                let oc2 = match &r2 { Ok(Ok(())) => "ok", Ok(Err(_)) => "invalid_length", Err(_) => "panic" };
+                cx.emit(json!({"ev":"wblock","dir": if dir == "enc" {"dec"} else {"enc"},"key":key,"len":len,"in":out,"out":b2,"guard_bad":0,"outcome":oc2}));
+            }
+        }
+    };
+    for (kc, key) in mix(rng, 32, nkeys) {
+        cx.reset("wblock");
+        let _ = kc;
+        for len in lo..=maxlen {
+            let data = match rng.below(4) {
+                0 => mix(rng, len, 1)[0].1.clone(),
+                _ => rng.bytes(len),
+            };
+            do_len(cx, rng, &key, len, data);
+        }
+        for _ in 0..extra {
+            let len = maxlen + 1 + rng.below(1024usize.saturating_sub(maxlen).max(1));
+            let data = rng.bytes(len);
+            do_len(cx, rng, &key, len, data);
+        }
+        // raw block function and the BeltBlock type on the same key
+        let kw = key_words(&key);
+        let ti = cx.ty("BeltBlock").unwrap();
+        let inst = cx.construct(ti, "slice", &key, "wblock-key");
+        for (_, b) in mix(rng, 16, 4) {
+            let x: [u32; 4] = core::array::from_fn(|i| u32::from_le_bytes(b[4 * i..4 * i + 4].try_into().unwrap()));
+            let r = catch(|| belt_block_raw(x, &kw));
+            let v = match r {
+                Ok(o) => json!({"ev":"raw","x":b,"key":key,"out":o.iter().flat_map(|w| w.to_le_bytes()).collect::<Vec<u8>>(),"outcome":"ok"}),
+                Err(_) => json!({"ev":"raw","x":b,"key":key,"out":[],"outcome":"panic"}),
+            };
+            cx.emit(v);
+            if let Some((id, i)) = &inst {
+                cx.one(*id, i.as_ref(), Dir::Enc, Shape::B2b, &b);
+            }
+        }
+        if let Some((id, i)) = inst {
+            cx.drop_inst(id, i);
+        }
+        cx.end();
+    }
+    0
+}
